@@ -103,6 +103,21 @@ def withhold_unrecognised(check: Check, pid: str) -> None:
                 d = edit_distance(e["stmts"], statement_digests(node)) if e and "stmts" in e else None
                 if d is None or d > LOCAL_EDIT:
                     far.append((key, d))
+            if not far and enclosing and all((pinned_table().get(k) or {}).get("stmts") is not None and edit_distance(pinned_table()[k]["stmts"], statement_digests(n)) == 0
+                                             for k, n in enclosing if k in pinned_table()) and any(k in pinned_table() for k, _ in enclosing):
+                # the function the verdict points at is UNTOUCHED: the mismatch stems from another function this property analyses.  If that other function was
+                # restructured, the verdict is a statement about how it is written now, not about a local edit — same treatment.
+                for q in sorted(analysed):
+                    e2 = pinned_table().get(q)
+                    if e2 is None or "stmts" not in e2 or any(q == k for k, _ in enclosing):
+                        continue
+                    try:
+                        d2 = edit_distance(e2["stmts"], statement_digests(repo.func(q)[1]))
+                    except Exception:
+                        d2 = None
+                    if d2 is None or d2 > LOCAL_EDIT:
+                        far.append((q, d2))
+                        break
             if far:
                 from .core.keyed import textual_matches
                 texts = textual_matches(list(ob.src))
